@@ -103,9 +103,10 @@ REPROS = {
         "basis = [ba.BasisHalfSpin(i) for i in range(n)]\n"
         "model = Model(basis, [Op('X X', [i, i+1], 1.0) for i in range(n-1)] + [Op('Z Z', [i, i+1], 0.4) for i in range(n-1)] + [Op('Z', i, 0.3*(i+1)) for i in range(n)] + [Op('X', i, 0.5) for i in range(n)])\n"
         "mpo = Mpo(model); H = np.asarray(mpo.todense())\n"
-        "c = Mps.random(model, 0, 4).canonicalise().canonicalise(); g = c.copy(); r = np.random.RandomState(7)\n"
+        "c = Mps.random(model, 0, 4); c2 = Mps.random(model, 0, 4); c = c.to_complex().add(c2.scale(0.8j)); c.canonicalise().canonicalise(); c.normalize('mps_and_coeff')\n"
+        "g = c.copy(); r = np.random.RandomState(7)      # COMPLEX state, complex gauge transform on every bond: same vector, same flags\n"
         "for i in range(n-1):\n"
-        "    d = g[i].shape[-1]; X = np.eye(d) + 0.5*r.standard_normal((d, d))\n"
+        "    d = g[i].shape[-1]; X = np.eye(d) + 0.5*r.standard_normal((d, d)) + 0.5j*r.standard_normal((d, d))\n"
         "    g[i] = np.tensordot(g[i].array, X, axes=(-1, 0)); g[i+1] = np.tensordot(np.linalg.inv(X), g[i+1].array, axes=(-1, 0))\n"
         "psi = np.asarray(g.todense())*g.coeff; ref = sla.expm(-0.3j*H) @ psi; bad = []\n"
         "for meth in (EvolveMethod.tdvp_vmf, EvolveMethod.tdvp_mu_vmf, EvolveMethod.tdvp_mu_cmf):\n"
@@ -133,6 +134,21 @@ REPROS = {
         "    e = np.linalg.norm(dense(a.evolve(mpo, t)) - ref); print(meth.name, solver, 'backward step t = -0.2: distance to exp(-iHt)psi', e)\n"
         "    if e > 1e-3: bad.append((meth.name, solver, e))\n"
         "sys.exit(1 if bad else 0)\n",
+    "adaptive-error-not-relative": PRE +
+        "s = Mps.random(m, 1, 8).canonicalise().canonicalise(); psi = dense(s); ref = sla.expm(-0.4j*H) @ psi; errs = {}\n"
+        "for c in (1.0, 1e-3):\n"
+        "    a = s.copy().scale(c)                       # the norm sits in the tensors\n"
+        "    a.evolve_config = EvolveConfig(EvolveMethod.prop_and_compress, adaptive=True, guess_dt=0.05, adaptive_rtol=1e-5)\n"
+        "    a.compress_config = CompressConfig(CompressCriteria.fixed, max_bonddim=64)\n"
+        "    errs[c] = np.linalg.norm(dense(a.evolve(mpo, 0.4, normalize=False)) - c*ref) / c\n"
+        "print('adaptive Taylor P&C, rtol 1e-5: relative error for |psi| = 1 and 1e-3:', errs)\n"
+        "sys.exit(1 if errs[1e-3] > 20 * errs[1.0] + 1e-9 else 0)\n",
+    "cmf-trapz-loses-norm": PRE +
+        "s = Mps.random(m, 1, 8).canonicalise().canonicalise(); psi = dense(s); c = 1e-3\n"
+        "a = s.copy().scale(c); a.evolve_config = EvolveConfig(EvolveMethod.tdvp_mu_cmf); a.evolve_config.tdvp_cmf_c_trapz = True\n"
+        "out = dense(a.evolve(mpo, 0.04, normalize=False))\n"
+        "print('CMF trapezoid variant, input norm 1e-3, normalize=False: output norm', np.linalg.norm(out), ' distance/c to exp(-iHt)psi', np.linalg.norm(out - c*sla.expm(-0.04j*H) @ psi)/c)\n"
+        "sys.exit(1 if abs(np.linalg.norm(out)/c - 1) > 1e-6 else 0)\n",
     "cmf-krylov-solver-dependence": PRE +
         "s = Mps.random(m, 1, 8).canonicalise().canonicalise()\n"
         "outs = []\n"
@@ -159,8 +175,12 @@ def classify(k, rec):
     if k == "exception/sequence" and "infs or NaNs" in exc and str(rec.get("failing_call", "")).startswith("tdvp_vmf"):
         return "vmf-overcomplete-singular-overlap"
     if k.startswith("gauge/") and k.split("/")[1].startswith(("tdvp_vmf", "tdvp_mu_vmf", "cmf")) and \
-            k.split("/")[2] in ("regauged-left-flags", "regauged-right-flags", "added-raw", "operator-applied"):
+            (k.split("/")[2] in ("regauged-left-flags", "regauged-right-flags", "added-raw", "operator-applied") or k.split("/")[2].startswith("complex-")):
         return "vmf-cmf-noncanonical-input"
+    if k.startswith("homogeneity/cmf_trapz") and rec.get("where") == "tensors":
+        return "cmf-trapz-loses-norm"
+    if k.startswith("homogeneity/"):
+        return "adaptive-error-not-relative" if rec.get("check") == "homogeneity-adaptive" else "oracle/" + k
     if k.startswith("negative/"):
         return "local-ode-solver-signed-step" if k.split("/")[1].startswith(("ps", "ps2", "tdvp_", "cmf")) else "oracle/" + k
     if k.startswith("gauge/ps/applied-") or k.startswith("gauge/ps/added-raw"):
@@ -668,6 +688,8 @@ def run(ctx):
                 "tdrk-adaptive-callable-time-offset": "theorem C09_tdrk_offset_is_accepted_time / Model.Prop.rk_stages (stage Hamiltonian sampled at c_i*dt + t0) vs the recorded sample times, and the dense fixed-step reference",
                 "vmf-cmf-noncanonical-input": "oracle clause `any gauge, sufficient bond dimension` (mean-field TDVP on a non-canonical representation)",
                 "local-ode-solver-signed-step": "oracle clauses `exp(-iHt) for real t` (t < 0) and `result does not depend on the local integrator`; contract of the local ODE solve (t_span of the requested sign, returns y(t_end))",
+                "adaptive-error-not-relative": "theorem C09_error_measure_scale_invariant (generated error measure) and the homogeneity oracle: the accepted error must not depend on the norm of the state",
+                "cmf-trapz-loses-norm": "homogeneity oracle: evolve(c psi) = c evolve(psi) with the factor in the tensors (normalize=False)",
                 "input-object-reuse": "oracle clause `the result does not depend on how t is split into successive calls` (one input object re-used; its evolve_config must come back unchanged)",
                 "tdvp-ps-noncanonical-input": "oracle clause `any gauge, sufficient bond dimension` (TDVP-PS inexact at full bond dimension)",
                 "cmf-krylov-solver-dependence": "oracle clause `result does not depend on the local integrator`"}.get(key, "dense oracle: " + key)
